@@ -96,11 +96,9 @@ def r3(ctx):
     seen_types = set()
     ign = pdb.enum_value("RTR_INTERVAL_MODE_IGNORE_ANY")
     for c in calls:
-        guards = [(vf.expr(fn, g), t) for g, t, br in es.guards_of(fn, c)]
-        v1 = any(g[0] == "icmp" and t and g[1] == "eq" and ("c", 1) in (g[2], g[3]) and
-                 any(x[0] == "load" and (vf.last_field(x[1]) or "").endswith(".ver") for x in (g[2], g[3])) for g, t in guards)
-        notign = any(g[0] == "icmp" and ((g[1] == "ne" and t) or (g[1] == "eq" and not t)) and ("c", ign) in (g[2], g[3]) and
-                     any(x == ("load", ("fld", SOCK, "rtr_socket.iv_mode")) for x in (g[2], g[3])) for g, t in guards)
+        G = es.Guards(fn, c)
+        v1 = bool(G.find_eq(lambda x: x[0] == "load" and (vf.last_field(x[1]) or "").endswith(".ver"), lambda y: y == ("c", 1)))
+        notign = G.ne(("load", ("fld", SOCK, "rtr_socket.iv_mode")), ("c", ign))
         mode_ok = vf.expr(fn, c.args[1]) == ("load", ("fld", SOCK, "rtr_socket.iv_mode")) and vf.expr(fn, c.args[0]) == SOCK
         ve = vf.expr(fn, c.args[2])
         fld = vf.last_field(ve[1]) if ve[0] == "load" else None
